@@ -353,7 +353,8 @@ impl FramebufferType<'_> {
                 // TODO we can create a struct for this and implement
                 //  DynSizedStruct for it to leverage the already existing
                 //  functionality
-                let num_colors = palette.len() as u16;
+                let num_colors = u16::try_from(palette.len())
+                    .expect("The palette must not have more than 65535 colors");
                 data.extend(&num_colors.to_ne_bytes());
                 for color in *palette {
                     let serialized_color = [color.red, color.green, color.blue];
